@@ -428,7 +428,7 @@ def replace_rule(R3, mod, fn):
     rets = [n for n in ast.walk(fn) if isinstance(n, ast.Return) and enclosing(n) is fn]
     problems = []
     if not visits:
-        problems.append(('Expr.replace_expr', 'replace_expr has its own traversal (no visit call)'))
+        raise AnalysisError('Expr.replace_expr has its own traversal (no visit call): the substitution clause has to be re-read')
     # the result is a visit rooted at self
     bound = {}
     for n in ast.walk(fn):
